@@ -10,6 +10,7 @@ from ..scenario import (Scenario, HtlcSpec, InvoiceSpec, held_htlcs, registered_
 from ..env_node import field
 from .c20 import run_explorer
 from . import common, scen_common
+from ..monitors import Coverage
 
 PID = 'C03'
 
@@ -105,9 +106,12 @@ def main(tier, seed, args):
                 continue
             cfg, pc = build(c, n, amountless, tier, with_tlv)
             name = 'scenario[%d htlcs,%s invoice%s]' % (n, 'amountless' if amountless else 'fixed-amount', '+amount tlv' if with_tlv else '')
-            sc = scen_common.ScenarioWithPc(c, cfg, [PayBudgetMonitor(amountless)], pc)
+            cov = Coverage(['pay'])
+            sc = scen_common.ScenarioWithPc(c, cfg, [PayBudgetMonitor(amountless), cov], pc)
             ex = run_explorer(rep, c, sc, name, max_states=300000, max_depth=600, time_budget=(100 if tier == 'quick' else 1500))
             scen_common.report(rep, PID, name, ex, sc)
+            if cov.missing() and not ex.violations:
+                rep.inconclusive.append('%s: vacuity guard: never reached %s' % (name, cov.missing()))
             if ex.violations:
                 break
         if rep.violations:
